@@ -24,6 +24,7 @@ import (
 	"os"
 	"reflect"
 	"strings"
+	"time"
 	"unsafe"
 
 	"github.com/theory/sqljson/path"
@@ -398,6 +399,7 @@ func main() {
 		return
 	}
 	withAPI := mode == "-api"
+	hangs := 0
 	in := bufio.NewScanner(os.Stdin)
 	in.Buffer(make([]byte, 1<<20), 1<<26)
 	out := bufio.NewWriter(os.Stdout)
@@ -409,7 +411,25 @@ func main() {
 			fmt.Fprintln(out, "BADHEX")
 			continue
 		}
-		r := run(string(raw))
+		// Parse must not hang: each input runs under a watchdog (the spinning goroutine of a hung Parse is
+		// abandoned; after a number of hangs the remaining inputs are not tried any more)
+		var r result
+		if hangs >= 40 {
+			r = result{false, "HANG"}
+		} else {
+			done := make(chan result, 1)
+			go func(src string) { done <- run(src) }(string(raw))
+			select {
+			case r = <-done:
+			case <-time.After(watchdog):
+				hangs++
+				r = result{false, "HANG"}
+			}
+		}
+		if r.line == "HANG" {
+			fmt.Fprintln(out, "HANG")
+			continue
+		}
 		if withAPI {
 			fmt.Fprintf(out, "%s %s\n", r.line, api(string(raw)))
 		} else {
